@@ -80,6 +80,9 @@ package time
 // the zone cache maps an offset to a location with that offset (object invariant of the cache: assumed on entry, re-established on exit)
 //@ spec tzInv() bool = forall k int :: maphas(tzMap, k) ==> mapget(tzMap, k) != nil && locoff(mapget(tzMap, k)) == k
 
+// arithmetic: a value below 10^k scaled by 10^(9-k) is a nanosecond count below one second (proved, then used in parseTime)
+//@ lemma scaled_bound(v int): [C18] (0 <= v) ==> (v < 1 ==> 0 <= v * 1000000000 && v * 1000000000 < 1000000000) && (v < 10 ==> 0 <= v * 100000000 && v * 100000000 < 1000000000) && (v < 100 ==> 0 <= v * 10000000 && v * 10000000 < 1000000000) && (v < 1000 ==> 0 <= v * 1000000 && v * 1000000 < 1000000000) && (v < 10000 ==> 0 <= v * 100000 && v * 100000 < 1000000000) && (v < 100000 ==> 0 <= v * 10000 && v * 10000 < 1000000000) && (v < 1000000 ==> 0 <= v * 1000 && v * 1000 < 1000000000) && (v < 10000000 ==> 0 <= v * 100 && v * 100 < 1000000000) && (v < 100000000 ==> 0 <= v * 10 && v * 10 < 1000000000) && (v < 1000000000 ==> 0 <= v * 1 && v * 1 < 1000000000)
+
 //@ func atoi2
 //@   requires len(in) >= 2
 //@   ensures [C18,C06] (isd(in,0) && isd(in,1)) <==> err == nil
@@ -108,6 +111,7 @@ package time
 //@   ensures [C18] tzInv()
 //@   modifies map map[int]*time.Location, ghost lock.held
 //@   uses fend_def(in, 20, 20 + i + 1)
+//@   uses scaled_bound(val)
 //@   uses umul_exact(val, 1)
 //@   uses umul_exact(val, 10)
 //@   uses umul_exact(val, 100)
